@@ -684,7 +684,23 @@ fn gen_design(r: &mut Rng, level: u32) -> Case {
         if r.chance(1, 2) { wo = *r.pick(W_WIDE) } else { ports[r.below(3) as usize].0 = *r.pick(W_WIDE) }
     }
     let depth = *r.pick(&[1u32, 2, 2, 3, 3]);
-    let e = Gen { r, ports, level }.any(depth);
+    let mut e = Gen { r, ports, level }.any(depth);
+    if level < 3 {
+        // strata S0–S2 are "≤ 64 bit" throughout: no intermediate result (concatenation) is wider
+        for _ in 0..50 {
+            let mut subs = vec![];
+            e.subtrees(&mut subs);
+            if subs.iter().all(|s| s.size(&ports) <= 64) {
+                break;
+            }
+            e = Gen { r, ports, level }.any(depth);
+        }
+        let mut subs = vec![];
+        e.subtrees(&mut subs);
+        if subs.iter().any(|s| s.size(&ports) > 64) {
+            e = E::Bin("add", Box::new(E::Port(0)), Box::new(E::Port(1)));
+        }
+    }
     let e = if matches!(e, E::Port(_) | E::Lit(..)) { E::Un("not", Box::new(e)) } else { e };
     Case { stratum: format!("S{level}"), wo, ports, vals: [String::from("0"), String::from("0"), String::from("0")], e }
 }
@@ -933,9 +949,39 @@ fn kind_of(v: &str) -> String {
 /// Failing (class, kind) pairs of one case against the reference. `only`: "" = every engine and
 /// the compile-time value, "ct", "an", or one engine class. `None` = not a usable case (rejected /
 /// reference don't-care).
+/// What was observed on one case: the reference value, the compile-time value, every engine's
+/// value, and the failing (class, kind) pairs.
+#[derive(Default, Clone)]
+struct Obs {
+    reference: String,
+    ct: String,
+    eng: Vec<(String, String)>,
+    fails: Vec<(String, String)>,
+}
+
+impl Obs {
+    /// the (common) value of one engine class, if it deviates with a plain value
+    fn value_of(&self, class: &str) -> Option<String> {
+        if class == "ct" {
+            return (self.ct != "?" && kind_of(&self.ct) == "value").then(|| self.ct.clone());
+        }
+        self.eng.iter().find(|(l, v)| class_of(l) == class && kind_of(v) == "value").map(|x| x.1.clone())
+    }
+    fn classes(&self) -> Vec<String> {
+        let mut v: Vec<String> = self.fails.iter().map(|x| x.0.clone()).collect();
+        v.sort();
+        v.dedup();
+        v
+    }
+}
+
 fn failures(c: &Case, m: &mut Model, pool: &mut Pool, only: &str) -> Option<Vec<(String, String)>> {
+    observe(c, m, pool, only).map(|o| o.fails)
+}
+
+fn observe(c: &Case, m: &mut Model, pool: &mut Pool, only: &str) -> Option<Obs> {
     let reference = m.ask(&c.line());
-    if reference == "dc" || reference == "bad-op" {
+    if reference == "div0" || reference == "bad-op" {
         return None;
     }
     let lines = vec![c.line()];
@@ -958,36 +1004,37 @@ fn failures(c: &Case, m: &mut Model, pool: &mut Pool, only: &str) -> Option<Vec<
             None => (format!("{cl}a=abort"), "?".to_string()),
         },
     };
-    let mut f = vec![];
+    let mut o = Obs { reference: reference.clone(), ct: ct.clone(), ..Default::default() };
     if ct != "?" {
         if ct.starts_with("rejected") {
             return None;
         }
         if ct != reference {
-            f.push(("ct".to_string(), kind_of(&ct)));
+            o.fails.push(("ct".to_string(), kind_of(&ct)));
         }
     }
     if let Some(why) = imp.strip_prefix("rejected:") {
         // the analyzer itself panics on the design: no engine can be built
         if let Some(loc) = why.strip_prefix("analyzer-") && loc.starts_with("panic@") {
-            f.push(("an".to_string(), loc.to_string()));
-            return Some(f);
+            o.fails.push(("an".to_string(), loc.to_string()));
+            return Some(o);
         }
         return None;
     }
     if only == "an" {
-        return Some(f);
+        return Some(o);
     }
     for lv in imp.split(',').filter(|x| !x.is_empty()) {
         let (label, v) = lv.split_once('=')?;
+        o.eng.push((label.to_string(), v.to_string()));
         if v != reference {
             let p = (class_of(label).to_string(), kind_of(v));
-            if !f.contains(&p) {
-                f.push(p);
+            if !o.fails.contains(&p) {
+                o.fails.push(p);
             }
         }
     }
-    Some(f)
+    Some(o)
 }
 
 const BOUNDARY: &[usize] = &[1, 2, 8, 32, 64, 65, 128, 129, 256];
@@ -1141,6 +1188,338 @@ fn signature(c: &Case, f: &[(String, String)], target: &(String, String)) -> Str
     format!("{}:{}:op-{},ctx-{}:{}:{}", classes.join("+"), c.e.root(), regime(opw), regime(ctx), sg, target.1)
 }
 
+
+// ───────────────────────── defect classes (verified predicates) ─────────────────────────
+
+/// (width, signed) context of every node, in pre-order — the propagation rules of IEEE 1800
+/// §11.6/§11.8 (the same as `eval` of Core/ExprRef.lean).
+fn contexts(c: &Case) -> Vec<(usize, bool)> {
+    fn go(e: &E, w: usize, s: bool, p: &[(usize, bool); 3], out: &mut Vec<(usize, bool)>) {
+        out.push((w, s));
+        match e {
+            E::Port(_) | E::Lit(..) => {}
+            E::Un(op, a) => {
+                if ["pos", "neg", "not"].contains(op) { go(a, w, s, p, out) } else { go(a, a.size(p), a.sgn(p), p, out) }
+            }
+            E::Bin(op, a, b) => {
+                if ARITH.contains(op) {
+                    go(a, w, s, p, out);
+                    go(b, w, s, p, out);
+                } else if SHIFT.contains(op) {
+                    go(a, w, s, p, out);
+                    go(b, b.size(p), b.sgn(p), p, out);
+                } else if ["eq", "ne", "lt", "le", "gt", "ge"].contains(op) {
+                    let (cw, cs) = (a.size(p).max(b.size(p)), a.sgn(p) && b.sgn(p));
+                    go(a, cw, cs, p, out);
+                    go(b, cw, cs, p, out);
+                } else {
+                    go(a, a.size(p), a.sgn(p), p, out);
+                    go(b, b.size(p), b.sgn(p), p, out);
+                }
+            }
+            E::Ite(x, a, b) => {
+                go(x, x.size(p), x.sgn(p), p, out);
+                go(a, w, s, p, out);
+                go(b, w, s, p, out);
+            }
+            E::Cat(a, b) => {
+                go(a, a.size(p), a.sgn(p), p, out);
+                go(b, b.size(p), b.sgn(p), p, out);
+            }
+        }
+    }
+    let mut out = vec![];
+    go(&c.e, c.e.size(&c.ports).max(c.wo), c.e.sgn(&c.ports), &c.ports, &mut out);
+    out
+}
+
+fn port_free(e: &E) -> bool {
+    !(0..3).any(|i| e.uses_port(i))
+}
+
+fn is_leaf(e: &E) -> bool {
+    matches!(e, E::Port(_) | E::Lit(..))
+}
+
+/// reference value of `assign o<wo> = e` (None: don't-care / not evaluable)
+fn ref_val(m: &mut Model, c: &Case, e: &E, wo: usize) -> Option<String> {
+    if wo == 0 || wo > 4096 {
+        return None;
+    }
+    let r = m.ask(&Case { e: e.clone(), wo, ..c.clone() }.line());
+    (r != "div0" && r != "bad-op").then_some(r)
+}
+
+/// value of `e` in an UNSIGNED context of `w` bits (`e | w'h0`)
+fn ref_unsigned_ctx(m: &mut Model, c: &Case, e: &E, w: usize) -> Option<String> {
+    if e.size(&c.ports) > w {
+        return None;
+    }
+    ref_val(m, c, &E::Bin("or", Box::new(e.clone()), Box::new(E::Lit(w, false, "0".into()))), w)
+}
+
+fn extend_hex(v: &str, from: usize, to: usize, signed: bool) -> String {
+    let mut w = hex_to_words(v, from);
+    w.resize(to.div_ceil(64).max(1), 0);
+    if signed && from > 0 && (w[(from - 1) / 64] >> ((from - 1) % 64)) & 1 == 1 {
+        for bit in from..to {
+            w[bit / 64] |= 1u64 << (bit % 64);
+        }
+    }
+    mask_words(&mut w, to);
+    words_to_hex(&w)
+}
+
+fn max_width(c: &Case) -> usize {
+    let mut subs = vec![];
+    c.e.subtrees(&mut subs);
+    subs.iter().map(|s| s.size(&c.ports)).max().unwrap_or(1).max(c.wo)
+}
+
+fn has_signed_leaf(c: &Case) -> bool {
+    let mut subs = vec![];
+    c.e.subtrees(&mut subs);
+    subs.iter().any(|l| match l {
+        E::Port(i) => c.ports[*i].1,
+        E::Lit(_, s, _) => *s,
+        _ => false,
+    })
+}
+
+/// `cc`: a constant-only operand (operators applied to literals only) is evaluated at its own
+/// width and type instead of the context's.  Verified: folding that subtree self-determined and
+/// re-evaluating the REFERENCE reproduces cc's value.
+fn k_cc_const(c: &Case, o: &Obs, m: &mut Model) -> bool {
+    let Some(ccv) = o.value_of("cc") else { return false };
+    let mut subs = vec![];
+    c.e.subtrees(&mut subs);
+    for (k, t) in subs.iter().enumerate() {
+        if is_leaf(t) || !port_free(t) {
+            continue;
+        }
+        let (tw, ts) = (t.size(&c.ports), t.sgn(&c.ports));
+        let Some(v) = ref_val(m, c, t, tw) else { continue };
+        let mut kk = k;
+        let e2 = c.e.replace(&mut kk, &E::Lit(tw, ts, v));
+        if ref_val(m, c, &e2, c.wo).as_deref() == Some(ccv.as_str()) {
+            return true;
+        }
+    }
+    false
+}
+
+/// `cc`: a 64-bit intermediate with its top bit set is shifted right / compared / divided as a
+/// SIGNED C integer.  Verified: replacing the node by its signed-arithmetic result reproduces cc's value.
+fn k_cc_msb64(c: &Case, o: &Obs, m: &mut Model) -> bool {
+    let Some(ccv) = o.value_of("cc") else { return false };
+    let ctxs = contexts(c);
+    let mut subs = vec![];
+    c.e.subtrees(&mut subs);
+    for (k, t) in subs.iter().enumerate() {
+        let E::Bin(op, a, b) = t else { continue };
+        let to_u64 = |h: &str| u64::from_str_radix(h, 16).ok();
+        let lit = if *op == "shr" {
+            if ctxs[k] != (64, false) || b.size(&c.ports) > 64 {
+                continue;
+            }
+            let (Some(av), Some(bv)) = (ref_unsigned_ctx(m, c, a, 64), ref_val(m, c, b, b.size(&c.ports))) else { continue };
+            let (Some(av), Some(bv)) = (to_u64(&av), to_u64(&bv)) else { continue };
+            E::Lit(64, false, format!("{:x}", ((av as i64) >> bv.min(63)) as u64))
+        } else if ["div", "mod"].contains(op) {
+            if ctxs[k] != (64, false) {
+                continue;
+            }
+            let (Some(av), Some(bv)) = (ref_unsigned_ctx(m, c, a, 64), ref_unsigned_ctx(m, c, b, 64)) else { continue };
+            let (Some(av), Some(bv)) = (to_u64(&av), to_u64(&bv)) else { continue };
+            if bv == 0 {
+                continue;
+            }
+            let (x, y) = (av as i64, bv as i64);
+            let r = if *op == "div" { x.wrapping_div(y) } else { x.wrapping_rem(y) };
+            E::Lit(64, false, format!("{:x}", r as u64))
+        } else if ["lt", "le", "gt", "ge"].contains(op) {
+            let cw = a.size(&c.ports).max(b.size(&c.ports));
+            if cw != 64 || (a.sgn(&c.ports) && b.sgn(&c.ports)) {
+                continue;
+            }
+            let (Some(av), Some(bv)) = (ref_unsigned_ctx(m, c, a, 64), ref_unsigned_ctx(m, c, b, 64)) else { continue };
+            let (Some(av), Some(bv)) = (to_u64(&av), to_u64(&bv)) else { continue };
+            let (x, y) = (av as i64, bv as i64);
+            let r = match *op {
+                "lt" => x < y,
+                "le" => x <= y,
+                "gt" => x > y,
+                _ => x >= y,
+            };
+            E::Lit(1, false, if r { "1".into() } else { "0".into() })
+        } else {
+            continue;
+        };
+        let mut kk = k;
+        let e2 = c.e.replace(&mut kk, &lit);
+        if ref_val(m, c, &e2, c.wo).as_deref() == Some(ccv.as_str()) {
+            return true;
+        }
+    }
+    false
+}
+
+/// analyzer compile-time evaluation: the selected branch of a ternary is extended by the branch
+/// VALUES' signedness instead of the propagated context type (expression.rs, `Expression::Ternary`
+/// in `eval_value`).  Verified: extending the selected branch the other way reproduces ct's value.
+fn k_ct_ternary(c: &Case, o: &Obs, m: &mut Model) -> bool {
+    let Some(ctv) = o.value_of("ct") else { return false };
+    let ctxs = contexts(c);
+    let mut subs = vec![];
+    c.e.subtrees(&mut subs);
+    for (k, t) in subs.iter().enumerate() {
+        let E::Ite(x, a, b) = t else { continue };
+        let (w, s) = ctxs[k];
+        let Some(xv) = ref_val(m, c, x, x.size(&c.ports)) else { continue };
+        let sel = if xv != "0" { a } else { b };
+        let sw = sel.size(&c.ports);
+        if sw > w {
+            continue;
+        }
+        let Some(sv) = ref_val(m, c, sel, sw) else { continue };
+        for sign in [false, true] {
+            let mut kk = k;
+            let e2 = c.e.replace(&mut kk, &E::Lit(w, s, extend_hex(&sv, sw, w, sign)));
+            if ref_val(m, c, &e2, c.wo).as_deref() == Some(ctv.as_str()) {
+                return true;
+            }
+        }
+    }
+    false
+}
+
+/// interpreter + compile-time evaluation (shared `eval_value`): `==`/`!=` hand an UNSIGNED context
+/// down to their operands (op.rs `eval_context_binary`: `Eq | Ne => signed: false`), so a narrower
+/// signed leaf inside an operator operand is zero-extended.  Verified: evaluating that operand in an
+/// unsigned context of the comparison width reproduces the interpreter's value.
+fn k_eq_unsigned_ctx(c: &Case, o: &Obs, m: &mut Model) -> bool {
+    let Some(iv) = o.value_of("i2").or_else(|| o.value_of("ct")) else { return false };
+    let mut subs = vec![];
+    c.e.subtrees(&mut subs);
+    for (k, t) in subs.iter().enumerate() {
+        let E::Bin(op, a, b) = t else { continue };
+        if !["eq", "ne"].contains(op) || !(a.sgn(&c.ports) && b.sgn(&c.ports)) {
+            continue;
+        }
+        let cw = a.size(&c.ports).max(b.size(&c.ports));
+        // replace each non-leaf operand by its value in an unsigned context of the comparison width
+        let fix = |x: &E, m: &mut Model| -> Option<E> {
+            if is_leaf(x) {
+                return Some(x.clone());
+            }
+            Some(E::Lit(cw, true, ref_unsigned_ctx(m, c, x, cw)?))
+        };
+        let (Some(a2), Some(b2)) = (fix(a, m), fix(b, m)) else { continue };
+        let mut kk = k;
+        let e2 = c.e.replace(&mut kk, &E::Bin(op, Box::new(a2), Box::new(b2)));
+        if ref_val(m, c, &e2, c.wo).as_deref() == Some(iv.as_str()) {
+            return true;
+        }
+    }
+    false
+}
+
+/// every engine and the compile-time evaluator (shared typing, op.rs `eval_context_binary`:
+/// `Greater | GreaterEq | Less | LessEq => signed: x.signed & y.signed`): the 1-bit result of a
+/// relational operator with two signed operands is itself typed SIGNED (IEEE 1800 §11.8.1: comparison
+/// results are unsigned): the enclosing expression becomes signed (sibling operands are
+/// sign-extended, a comparison with it is signed).  Verified: replacing the relational node by a
+/// SIGNED literal of the context width holding its 0/1 value reproduces the common engine value.
+fn k_rel_result_signed(c: &Case, o: &Obs, m: &mut Model) -> bool {
+    let Some(v) = o.value_of("i2") else { return false };
+    let ctxs = contexts(c);
+    let mut subs = vec![];
+    c.e.subtrees(&mut subs);
+    for (k, t) in subs.iter().enumerate() {
+        let E::Bin(op, a, b) = t else { continue };
+        if !["lt", "le", "gt", "ge"].contains(op) || !(a.sgn(&c.ports) && b.sgn(&c.ports)) {
+            continue;
+        }
+        // typed signed for the propagation of the context type, while the 0/1 value itself is
+        // zero-extended to the context width
+        let Some(tv) = ref_val(m, c, t, 1) else { continue };
+        let mut kk = k;
+        let e2 = c.e.replace(&mut kk, &E::Lit(ctxs[k].0.max(1), true, tv));
+        if ref_val(m, c, &e2, c.wo).as_deref() == Some(v.as_str()) {
+            return true;
+        }
+    }
+    false
+}
+
+/// The defect class of a shrunk failing case, if its predicate holds.
+fn classify(c: &Case, o: &Obs, target: &(String, String), m: &mut Model) -> Option<&'static str> {
+    let cl = o.classes();
+    let is = |set: &[&str]| cl.len() == set.len() && set.iter().all(|x| cl.iter().any(|y| y == x));
+    let within = |set: &[&str]| cl.iter().all(|x| set.contains(&x.as_str()));
+    let has = |x: &str| cl.iter().any(|y| y == x);
+    let all_value = o.fails.iter().all(|f| f.1 == "value");
+    let wide = max_width(c) > 64;
+    let mut subs = vec![];
+    c.e.subtrees(&mut subs);
+    let has_ite = subs.iter().any(|s| matches!(s, E::Ite(..)));
+    if target.1.starts_with("panic@cranelift-codegen") && target.1.contains("/isa/x64/lower/isle.rs") && within(&["j2", "j4", "cc"]) && wide {
+        return Some("jit:isle-lowering-panic-when-ctx-or-operand>64");
+    }
+    if target.1 == "abort" && (has("j4") || has("al")) && within(&["j2", "j4", "cc", "al"]) && wide && has_ite {
+        return Some("jit4:heap-corruption-ite-wider-than-64");
+    }
+    if !all_value {
+        return None;
+    }
+    if is(&["cc"]) {
+        if k_cc_const(c, o, m) {
+            return Some("cc:constant-only-operand-evaluated-at-self-width");
+        }
+        if k_cc_msb64(c, o, m) {
+            return Some("cc:64bit-msb-set-shift-compare-divide-as-signed");
+        }
+        if wide {
+            return Some("cc:value-wrong-when-ctx-or-operand>64");
+        }
+        if has_signed_leaf(c) {
+            return Some("cc:signed-operand-le64");
+        }
+        return None;
+    }
+    if is(&["j4"]) && wide {
+        // 4-state only: the X/Z-mask half of a value wider than 64 bits
+        return Some("jit4:value-wrong-when-ctx-or-operand>64");
+    }
+    if has("j2") && has("j4") && within(&["j2", "j4", "cc"]) {
+        // the 2- and 4-state JIT must agree on the wrong value (one code path)
+        if o.value_of("j2") != o.value_of("j4") {
+            return None;
+        }
+        if wide {
+            return Some("jit:value-wrong-when-ctx-or-operand>64");
+        }
+        if has_signed_leaf(c) {
+            return Some("jit:signed-operand-le64");
+        }
+        return None;
+    }
+    if ["i2", "i4", "j2", "j4"].iter().all(|x| has(x))
+        && within(&["cc", "ct", "i2", "i4", "j2", "j4"])
+        && cl.iter().all(|x| o.value_of(x) == o.value_of("i2"))
+        && k_rel_result_signed(c, o, m)
+    {
+        return Some("all:relational-result-typed-signed-when-both-operands-signed");
+    }
+    if is(&["ct"]) && has_ite && k_ct_ternary(c, o, m) {
+        return Some("ct:ternary-branch-extended-by-value-signedness");
+    }
+    if is(&["ct", "i2", "i4"]) && o.value_of("i2") == o.value_of("i4") && o.value_of("i2") == o.value_of("ct") && k_eq_unsigned_ctx(c, o, m) {
+        return Some("interp+ct:eq-ne-pass-unsigned-context-to-signed-operands");
+    }
+    None
+}
+
 const CLASS_ORDER: &[&str] = &["an", "i2", "i4", "ct", "j2", "j4", "cc", "al"];
 
 fn shrink_main(opts: &Opts, lines: &[String]) -> i32 {
@@ -1165,9 +1544,15 @@ fn shrink_main(opts: &Opts, lines: &[String]) -> i32 {
         let target = CLASS_ORDER.iter().find_map(|cl| f.iter().find(|x| x.0 == *cl)).unwrap_or(&f[0]).clone();
         let mut budget = max_budget;
         let small = shrink(&c, &target, &mut m, &mut pool, &mut budget);
-        let f2 = failures(&small, &mut m, &mut pool, "").unwrap_or_default();
-        let f2 = if f2.contains(&target) { f2 } else { vec![target.clone()] };
-        let key = signature(&small, &f2, &target);
+        let mut o2 = observe(&small, &mut m, &mut pool, "").unwrap_or_default();
+        if !o2.fails.contains(&target) {
+            o2.fails = vec![target.clone()];
+        }
+        // a defect class whose predicate holds on the shrunk case, else the fine signature
+        let key = match classify(&small, &o2, &target, &mut m) {
+            Some(k) => k.to_string(),
+            None => format!("unclassified:{}", signature(&small, &o2.fails, &target)),
+        };
         let src = small.port_source().replace('\n', " ");
         out.push(format!("key={key} witness={} ;; {}", small.line().replace(' ', "|"), src));
     }
